@@ -273,8 +273,97 @@ class Faults(Sub):
                 viol[0]["detail"]["point"] = [i, k]
                 break
         labels.append("points:%d" % len(points))
+        if not viol and not only and backend == "kv":
+            evals += await self._bursts(history, S, muts, viol, nts)
+        if not viol and not only and backend == "sql" and self.fault == "error":
+            evals += await self._repeated_errors(history, viol)
         return Result(viol, bool(nts), labels, sample={"backend": backend, "history": history, "mutations_per_event": muts},
                       evals=max(evals, 1), nt_hashes=nts)
+
+    async def _bursts(self, history, S, muts, viol, nts):
+        """LMDB: events i-1 and i are BOTH queued before the writer runs; the fault hits event i.
+        The predecessor must be applied, the faulted event not (error) / atomically (kill)."""
+        import lmdb
+
+        n = 0
+        for i in range(1, len(history)):
+            for k in range(0, muts[i], max(1, muts[i] // 3)):
+                n += 1
+                if muts[i] >= 3 and 1 <= k < muts[i] - 1:
+                    nts.append(jhash(["kv", self.fault, "burst", history, i, k]))
+                c = Counter()
+                rig = await open_rig("kv", c)
+                try:
+                    for ev in history[: i - 1]:
+                        await apply(rig, ev, c)
+                    for ev in history[i - 1: i + 1]:
+                        try:
+                            await rig.storage.add_event(json.loads(json.dumps(ev)))
+                        except Exception:
+                            pass
+                    queued = rig.pending_writes()
+                    c.n = 0
+                    c.armed = True
+                    # the predecessor performs muts[i-1] mutations when it was queued at all
+                    c.fail_at = (muts[i - 1] if queued == 2 else 0) + k
+                    c.exc = lmdb.Error("injected engine failure") if self.fault == "error" else Kill()
+                    try:
+                        rig.pump()
+                    except Kill:
+                        rig.storage.writer_queue.items.clear()
+                    c.armed = False
+                    c.fail_at = None
+                    path = rig.path
+                    if self.fault == "kill":
+                        await rig.close()
+                        rig = await open_rig("kv", c, path=path)
+                    await rig.settle()
+                    got = await raw(rig)
+                    ok_states = [S[i]] if self.fault == "error" else [S[i], S[i + 1]]
+                    if queued == 2 and got not in ok_states:
+                        viol.append(V("kv-burst-not-isolated-after-%s" % ("engine-error" if self.fault == "error" else "kill"),
+                                      "a fault in one event leaves the other events of a burst applied (each event is its own atomic step)",
+                                      i=i, k=k, burst=[history[i - 1]["id"][:8], history[i]["id"][:8]],
+                                      diff_vs_expected=_diff(S[i], got)))
+                finally:
+                    lmdb.FAULT_HOOK = None
+                    await rig.close()
+                    lmdb._reset(rig.path)
+                if viol:
+                    return n
+        return n
+
+    async def _repeated_errors(self, history, viol):
+        """SQL: several events in a row hit an engine error; the next event must still be applied (no leaked slot/lock)."""
+        import asyncio
+
+        c = Counter()
+        rig = await open_rig("sql", c)
+        try:
+            for j in range(6):
+                ev = E.free(("%02x" % (0xa0 + j)) * 32, A, 1, E.T0 + 100 + j, [["t", "z"]], "fails%d" % j)
+                c.fail_at = j % 2
+                c.exc = sqlite3.OperationalError("injected engine failure")
+                try:
+                    await asyncio.wait_for(apply(rig, ev, c), 30)
+                except asyncio.TimeoutError:
+                    viol.append(V("sql-blocked-after-engine-errors", "a failure while applying one event does not prevent later events",
+                                  after_failures=j, add_slot=getattr(rig.storage.add_slot, "_value", None)))
+                    return 1
+            c.fail_at = None
+            last = E.free("bb" * 32, A, 1, E.T0 + 200, [["t", "z"]], "after the failures")
+            try:
+                ok, reason, _ = await asyncio.wait_for(apply(rig, last, c), 30)
+            except asyncio.TimeoutError:
+                viol.append(V("sql-blocked-after-engine-errors", "a failure while applying one event does not prevent later events",
+                              after_failures=6, add_slot=getattr(rig.storage.add_slot, "_value", None)))
+                return 1
+            if not ok or last["id"] not in (await rig.dump()):
+                viol.append(V("sql-event-after-failures-not-applied", "a failure while applying one event does not prevent later events",
+                              ok=ok, reason=reason))
+        finally:
+            await rig.close()
+        return 1
 
 
 def _diff(a, b):
